@@ -242,7 +242,7 @@ def main(tier, seed, replay, jobs, scale):
         import json
         cases = [tuple(json.load(open(replay))["replay"]["case"])]
     else:
-        n = int((360 if tier == "quick" else 1500) * scale)
+        n = int((360 if tier == "quick" else 12000) * scale)
         cases = [(seed, i, tier) for i in range(n)]
     par.absorb(run, par.run_cases(run_case, cases, jobs))
     run.assumptions += ["the twin arrays allocate identically (same trees, alphabetical scan order); a difference is reported as a harness problem",
